@@ -106,6 +106,12 @@ func init() {
 		Components: []string{"real: vnet.Router address assignment (AddNet/AddRouter), vnet.Net bind paths (ListenUDP/ListenPacket/Dial/DialUDP/Close), conn map, datagram demultiplexing through a started router", "adaptor: reads a child router's WAN addresses", "oracle: reference model (set of held addresses; set of open sockets with wildcard rules); porcupine for concurrent bind histories"},
 		Assumptions: append([]string{"duplicate static addresses supplied by the user are not generated (left unconstrained by the property)"}, stdAssume...),
 		Rule: "(a) assignment histories: 1-14 (occasionally >250) NICs/child routers with distinct static addresses inside/outside the automatic range and outside the subnet, automatic assignment, subnets /16 /24 /28; (b) bind histories by 1-3 concurrent workers with specific, wildcard, loopback and foreign addresses, explicit and zero ports, closes and probe datagrams; occasionally a 1000-port sweep of the ephemeral range. Non-trivial: >=2 NICs / >=3 operations / >=1 context switch; distinct = hash of the history or schedule hash"})
+	natRule := "end-to-end topology: root router with remote hosts (two sockets per host: same IP, other port), one NAT'd LAN router (3x3 mapping/filtering behaviours, lifetimes 50ms/1s/30s, or 1:1 mode with 1-3 IP pairs) with internal hosts; histories of 2-60 outbound / inbound (to learned live or expired external addresses, never-allocated ports, unpaired IPs) / idle (around the lifetime: L-1ms, L, L+1ms, 0.6L, 2L) events; occasionally 16385 mappings first. Non-trivial: >=2 mappings created or inbound datagrams judged (or 1:1 mode); distinct = hash of configuration and history"
+	natPkgs := []string{"vnet", "deadline"}
+	def("C02", &propCfg{Dir: "c02", Pkgs: natPkgs, Components: []string{"real: vnet routers, NAT, hosts, sockets (router goroutines are workers)", "oracle: reference NAT model that learns external ports from observation; mapping liveness three-valued around the lifetime (interval reasoning)"},
+		Assumptions: append([]string{"reuse of an expired external port is left open", "a mapping created by a datagram to an unbound remote port has an unobserved external address; while such a mapping may be live, 'no mapping owns this address' is not asserted"}, stdAssume...), Rule: natRule})
+	def("C03", &propCfg{Dir: "c02", Pkgs: natPkgs, Components: []string{"real: vnet routers, NAT, hosts, sockets (router goroutines are workers)", "oracle: reference NAT model (permissions per mapping under the filtering behaviour); refused datagrams are ignored by the model, so any side effect shows up as a later disagreement"},
+		Assumptions: append([]string{"reuse of an expired external port is left open", "a mapping created by a datagram to an unbound remote port has an unobserved external address; while such a mapping may be live, 'no mapping owns this address' is not asserted"}, stdAssume...), Rule: natRule})
 	def("C09", &propCfg{
 		Components:  []string{"real: deadline.Deadline over simrt.Timer (AfterFunc callbacks are workers parked at their entry, so a dispatched-but-unrun callback can be overtaken by further Set calls)", "stub: none"},
 		Assumptions: stdAssume,
